@@ -22,6 +22,19 @@
 (* Mut = "nopstat" is a spec-level MUTANT: a throttling rule reads an      *)
 (* empty statistic (previous QPS always 0) - WarmAfterSat must fail.       *)
 (*                                                                         *)
+(* The rule parameters are STATE: Reload(c2) replaces the rule in force by *)
+(* a changed one (c2 \in Targets(cfg), at most MaxReload times) at a       *)
+(* second boundary.  As in the code the modified rule gets a fresh         *)
+(* calculator (no tokens, never synchronised) and keeps the statistic (the *)
+(* admissions of the previous second).  ju / LCMP is the warm-up progress  *)
+(* the history of the resource justifies, ra the absolute rate it was      *)
+(* justified to serve before the last reload (WarmUpOps, "a rule REPLACED  *)
+(* under traffic"); ProgressOK bounds every busy second by ProgCap, with   *)
+(* or without reloads.  Sustained demand and starvation are counted from   *)
+(* the reload.  Mut = "rawcarry" is the mutant "the new calculator         *)
+(* inherits the raw token count (clipped to its capacity) and the last     *)
+(* fill time of the old one" - ProgressOK must fail.                       *)
+(*                                                                         *)
 (* All counters saturate at a configuration-dependent cap, so the state    *)
 (* space is finite WITHOUT a bound on time: the invariants below are       *)
 (* checked for histories of any length.                                    *)
@@ -35,7 +48,10 @@
 EXTENDS WarmUpOps, Sequences, TLC
 
 CONSTANTS Configs,      \* set of [tn, td, p, c, cb]
-          Mut,          \* "none" | "nopstat" (spec-level mutant, see above)
+          Mut,          \* "none" | "nopstat" | "rawcarry" (spec-level mutants, see above)
+          Targets(_),   \* the configurations a rule may be replaced by
+          MaxReload,    \* reloads per history
+          LCMP,         \* a common multiple of every period in play (progress is counted in units of 1/LCMP)
           SAT,          \* marker for saturating demand
           InScope(_),   \* class of configurations the envelope invariants are stated for
           ExcuseStuck   \* TRUE: histories in which the token count rests exactly on the warning line are excused
@@ -51,21 +67,24 @@ VARIABLES
     sat,        \* consecutive preceding seconds in which some request was blocked (saturating)
     starve,     \* consecutive seconds with demand and no admission, including the last one (saturating)
     stuck,      \* the idle period in progress began with stored = Warn (history-dependent defect)
-    last,       \* what the last Second(d) with d # 0 did: [al, n, adm, cold, warm]
+    last,       \* what the last Second(d) with d # 0 did: [al, n, adm, cold, warm, cap]
+    ju, ra,     \* justified warm-up progress (ju / LCMP) and justified absolute rate carried over the last reload
+    nre,        \* reloads so far
     h           \* demand history (scenario for the conformance driver; hidden by VIEW)
 
-vars == <<cfg, stored, gap, prev, idle, sat, starve, stuck, last, h>>
-view == <<cfg, stored, gap, prev, idle, sat, starve, stuck, last>>
+vars == <<cfg, stored, gap, prev, idle, sat, starve, stuck, last, ju, ra, nre, h>>
+view == <<cfg, stored, gap, prev, idle, sat, starve, stuck, last, ju, ra, nre>>
 
 Cap(c) == 2 * c.p + 6
 Sat1(x, c) == Min2(x + 1, Cap(c))
-NoLast == [al |-> [n |-> 0, d |-> 1], n |-> 0, adm |-> 0, cold |-> FALSE, warm |-> FALSE, stuck |-> FALSE]
+NoLast == [al |-> [n |-> 0, d |-> 1], n |-> 0, adm |-> 0, cold |-> FALSE, warm |-> FALSE, stuck |-> FALSE, cap |-> 0]
 
 Init ==
     /\ cfg \in Configs
     /\ stored = 0 /\ gap = -1 /\ prev = 0
     /\ idle = IdleEnough(cfg) /\ sat = 0 /\ starve = 0 /\ stuck = FALSE
     /\ last = NoLast
+    /\ ju = 0 /\ ra = RZero /\ nre = 0
     /\ h = << [op |-> "new", tn |-> cfg.tn, td |-> cfg.td, p |-> cfg.p, c |-> cfg.c, cb |-> cfg.cb] >>
 
 Quiet ==
@@ -76,7 +95,7 @@ Quiet ==
     /\ sat' = 0 /\ starve' = 0
     /\ last' = NoLast
     /\ h' = Append(h, [op |-> "sec", n |-> 0])
-    /\ UNCHANGED <<cfg, stored>>
+    /\ UNCHANGED <<cfg, stored, ju, ra, nre>>
 
 \* the previous QPS the calculator reads from the statistic of the rule
 PrevSeen == IF Mut = "nopstat" /\ Throttled(cfg) THEN 0 ELSE prev
@@ -93,6 +112,9 @@ Busy(d) ==
     LET st  == Sync(cfg, stored, gap, PrevSeen)
         al  == Allowed(cfg, st)
         n   == IF d = SAT THEN FloorT(cfg) + 2 ELSE 1
+        cold == idle >= IdleEnough(cfg)
+        ju0 == IF cold THEN 0 ELSE ju                     \* after an idle period nothing is justified any more
+        ra0 == IF cold THEN RZero ELSE ra
     IN  \E adm \in Admitted(al, n) :
         /\ stored' = st /\ gap' = 1 /\ prev' = adm
         /\ idle' = 0 /\ stuck' = FALSE
@@ -101,12 +123,29 @@ Busy(d) ==
         \* sustained demand: nothing is admitted, so nothing is drained)
         /\ sat' = IF adm < n /\ (~Throttled(cfg) \/ n > 1) THEN Sat1(sat, cfg) ELSE 0
         /\ starve' = IF adm = 0 THEN Sat1(starve, cfg) ELSE 0
-        /\ last' = [al |-> al, n |-> n, adm |-> adm, cold |-> idle >= IdleEnough(cfg), warm |-> sat >= WarmEnough(cfg),
-                    stuck |-> stuck]
+        /\ last' = [al |-> al, n |-> n, adm |-> adm, cold |-> cold, warm |-> sat >= WarmEnough(cfg),
+                    stuck |-> stuck, cap |-> ProgCap(cfg, ju0, LCMP, ra0)]
+        \* a second in which the resource admitted something justifies 1/period of progress
+        /\ ju' = Min2(LCMP, ju0 + (IF adm > 0 THEN LCMP \div cfg.p ELSE 0))
+        /\ ra' = ra0
         /\ h' = Append(h, [op |-> "sec", n |-> n])
-        /\ UNCHANGED cfg
+        /\ UNCHANGED <<cfg, nre>>
 
-Next == Quiet \/ Busy(1) \/ Busy(SAT)
+\* the rule is replaced by a changed one (between two seconds)
+Reload(c2) ==
+    /\ nre < MaxReload /\ c2 # cfg
+    /\ cfg' = c2
+    /\ IF Mut = "rawcarry"
+         THEN stored' = Min2(stored, MaxTok(c2)) /\ gap' = gap             \* (a never synchronised calculator has nothing to give)
+         ELSE stored' = 0 /\ gap' = -1                                     \* fresh calculator
+    /\ sat' = 0 /\ starve' = 0 /\ stuck' = FALSE /\ last' = NoLast
+    /\ ju' = Min2(LCMP, ju + (IF prev > 0 THEN LCMP \div c2.p ELSE 0))
+    /\ ra' = ProgRate(cfg, ju, LCMP, ra)
+    /\ nre' = nre + 1
+    /\ h' = Append(h, [op |-> "reload", tn |-> c2.tn, td |-> c2.td, p |-> c2.p, c |-> c2.c, cb |-> c2.cb])
+    /\ UNCHANGED <<prev, idle>>
+
+Next == Quiet \/ Busy(1) \/ Busy(SAT) \/ (\E c2 \in Targets(cfg) : Reload(c2))
 Spec == Init /\ [][Next]_vars
 
 ---------------------------------------------------------------------------
@@ -133,6 +172,9 @@ WarmAfterSat == (InScope(cfg) /\ last.warm /\ last.n > 1) =>
 \* admitted, so nothing is drained and the observable form holds trivially)
 WarmAfterSatThr == (InScope(cfg) /\ last.warm /\ last.n > 1 /\ Defined(last.al) /\ cfg.tn >= cfg.td) =>
                        last.al.n * cfg.td = cfg.tn * last.al.d
+\* no busy second admits more than the history of the resource justifies (cold after idle is the case ju = 0; after a
+\* reload: no warmer than the old rule was, as a fraction or as an absolute rate)
+ProgressOK == (InScope(cfg) /\ last.n > 0 /\ Defined(last.al)) => last.adm <= last.cap
 \* a steady single-token demand is never starved forever when the threshold is at least one
 NoStarvation == (InScope(cfg) /\ cfg.tn >= cfg.td) => starve < StarveBound(cfg)
 =============================================================================
